@@ -266,7 +266,7 @@ func (ft *FT) instr(ins ssa.Instruction, st *State, guard Term) {
 		ksrt, vsrt := ft.d.sortOf(mt.Key()), ft.d.sortOf(mt.Elem())
 		ft.set(st, ks[0], app("store", ft.get(st, ks[0]), r, fmt.Sprintf("((as const %s) false)", arraySort(ksrt, "Bool"))))
 		_ = vsrt
-		ft.set(st, "ML", app("store", ft.get(st, "ML"), r, "0"))
+		ft.set(st, ks[2], app("store", ft.get(st, ks[2]), r, "0"))
 		ft.define(x, r)
 	case *ssa.MakeSlice:
 		ft.makeSlice(x, st, guard)
@@ -279,6 +279,7 @@ func (ft *FT) instr(ins ssa.Instruction, st *State, guard Term) {
 	case *ssa.Lookup:
 		ft.lookup(x, st, guard)
 	case *ssa.MapUpdate:
+		ft.guardedMap(x.Map, true, x.Pos(), guard)
 		ft.mapUpdate(st, guard, ft.val(x.Map), x.Map.Type().Underlying().(*types.Map), ft.val(x.Key), ft.val(x.Value), x.Pos())
 	case *ssa.Slice:
 		ft.sliceOp(x, st, guard)
@@ -329,11 +330,15 @@ func (ft *FT) instr(ins ssa.Instruction, st *State, guard Term) {
 	case *ssa.Go:
 		ft.goStmt(x, st, guard)
 	case *ssa.Send:
-		ft.note("channel send not interpreted (havoc)")
-		ft.havocAll(st)
+		ft.sendObligations(x.Chan, x.Pos(), st, guard)
+		ft.note("channel operations carry no heap effect in the model (interference enters only at Lock)")
 	case *ssa.Select:
-		ft.note("select not interpreted (havoc)")
-		ft.havocAll(st)
+		for _, sst := range x.States {
+			if sst.Dir == types.SendOnly {
+				ft.sendObligations(sst.Chan, x.Pos(), st, guard)
+			}
+		}
+		ft.note("channel operations carry no heap effect in the model (interference enters only at Lock)")
 		var ts []Term
 		tup := x.Type().(*types.Tuple)
 		for i := 0; i < tup.Len(); i++ {
@@ -444,8 +449,7 @@ func (ft *FT) unop(x *ssa.UnOp, st *State, guard Term) {
 	case token.XOR:
 		ft.define(x, app(ft.ufun("bv_not", []Sort{"Int"}, "Int"), ft.val(x.X)))
 	case token.ARROW:
-		ft.note("channel receive not interpreted (havoc)")
-		ft.havocAll(st)
+		ft.note("channel operations carry no heap effect in the model (interference enters only at Lock)")
 		if x.CommaOk {
 			tup := x.Type().(*types.Tuple)
 			v := ft.fresh("recv", ft.d.sortOf(tup.At(0).Type()))
@@ -612,28 +616,28 @@ func (ft *FT) mapUpdate(st *State, guard Term, m Term, mt *types.Map, k, v Term,
 	if isIface(mt.Key()) {
 		ft.safety("ifacecmp", pos, guard, ft.comparableDyn(k))
 	}
-	md, mv, ml := ft.get(st, ks[0]), ft.get(st, ks[1]), ft.get(st, "ML")
+	md, mv, ml := ft.get(st, ks[0]), ft.get(st, ks[1]), ft.get(st, ks[2])
 	had := sel(md, m, k)
 	ft.set(st, ks[0], app("store", md, m, app("store", sel(md, m), k, "true")))
 	ft.set(st, ks[1], app("store", mv, m, app("store", sel(mv, m), k, v)))
-	ft.set(st, "ML", app("store", ml, m, app("+", sel(ml, m), ite(had, "0", "1"))))
+	ft.set(st, ks[2], app("store", ml, m, app("+", sel(ml, m), ite(had, "0", "1"))))
 }
 
 func (ft *FT) mapDelete(st *State, guard Term, m Term, mt *types.Map, k Term) {
 	ks := ft.mapKeys(mt)
-	md, ml := ft.get(st, ks[0]), ft.get(st, "ML")
+	md, ml := ft.get(st, ks[0]), ft.get(st, ks[2])
 	had := and(not(eq(m, "0")), sel(md, m, k))
 	nmd := ft.fresh("md", ft.heaps[ks[0]].sort)
 	ft.asserts = append(ft.asserts, "(assert "+eq(nmd, ite(eq(m, "0"), md, app("store", md, m, app("store", sel(md, m), k, "false"))))+")")
 	ft.set(st, ks[0], nmd)
-	nml := ft.fresh("ml", ft.heaps["ML"].sort)
+	nml := ft.fresh("ml", ft.heaps[ks[2]].sort)
 	ft.asserts = append(ft.asserts, "(assert "+eq(nml, ite(had, app("store", ml, m, app("-", sel(ml, m), "1")), ml))+")")
-	ft.set(st, "ML", nml)
+	ft.set(st, ks[2], nml)
 }
 
-func (ft *FT) mapLen(st *State, m Term) Term {
-	ft.keySort("ML", arraySort("Int", "Int"))
-	return ite(eq(m, "0"), "0", sel(ft.get(st, "ML"), m))
+func (ft *FT) mapLen(st *State, m Term, mt *types.Map) Term {
+	ks := ft.mapKeys(mt)
+	return ite(eq(m, "0"), "0", sel(ft.get(st, ks[2]), m))
 }
 
 func (ft *FT) sliceOp(x *ssa.Slice, st *State, guard Term) {
@@ -708,7 +712,7 @@ func (ft *FT) next(x *ssa.Next, st *State, guard Term) {
 	ft.assume(and(guard, okc), and(not(eq(m, "0")), sel(md, m, key), not(app("select", vis, key))))
 	ft.assume(and(guard, not(okc)), or(eq(m, "0"), forall([][2]string{{"k", ksrt}}, implies(sel(md, m, "k"), app("select", vis, "k")))))
 	// cardinality fact of the map model at range exhaustion: a map without keys has length 0
-	ft.assume(and(guard, not(okc)), implies(forall([][2]string{{"k", ksrt}}, not(sel(md, m, "k"))), eq(ft.mapLen(st, m), "0")))
+	ft.assume(and(guard, not(okc)), implies(forall([][2]string{{"k", ksrt}}, not(sel(md, m, "k"))), eq(ft.mapLen(st, m, mt), "0")))
 	val := ft.fresh("rv", ft.d.sortOf(mt.Elem()))
 	ft.asserts = append(ft.asserts, "(assert "+implies(okc, eq(val, sel(ft.get(st, ks[1]), m, key)))+")")
 	ft.assume("true", ft.typeInv(val, mt.Elem(), st))
@@ -728,4 +732,24 @@ func (ft *FT) ret(x *ssa.Return, st *State, guard Term) {
 
 func (ft *FT) panicExit(x *ssa.Panic, st *State, guard Term) {
 	// deferred calls still run on panic; obligations at exit (e.g. held locks) are not checked here.
+}
+
+// sendObligations: `sendpre` clauses of the contract, with `ch` bound to the channel being sent on.
+func (ft *FT) sendObligations(ch ssa.Value, pos token.Pos, st *State, guard Term) {
+	if ft.con == nil || len(ft.con.SendPre) == 0 {
+		return
+	}
+	ctx := ft.specCtx(st, ft.entry)
+	if ft.curBlk != nil {
+		ctx.local = ft.localResolver(ft.curBlk, false, nil, nil, ctx.local)
+	}
+	ctx.vars["ch"] = SpecVal{T: ft.val(ch), Typ: ch.Type(), Sort: "Int"}
+	for _, cl := range ft.con.SendPre {
+		t, err := ctx.boolExpr(cl.Expr)
+		if err != nil {
+			ft.errf("sendpre %q: %v", cl.Text, err)
+			continue
+		}
+		ft.oblige("pre@send", pos, cl.Text, guard, t, true)
+	}
 }
